@@ -64,7 +64,10 @@ def run(c):
     return c.finish(
         rule="controlled mode: the REAL queue (spool files, time wheel, dispatch goroutines, Queue.Close), compiled from timewheel.go/queue.go with a scheduling point "
         "before every synchronisation statement, is driven step by step along random schedules (1-4 producers via Commit or restart-style Add, 0-3 in-flight attempts, "
-        "retries, temporary and permanent errors of the next hop at every stage of the dialogue, dispatched entries whose spool entry cannot be opened at that moment "
+        "retries, temporary and permanent errors of the next hop at every stage of the dialogue, a next hop that PANICS at a scripted stage (Start/AddRcpt/Body/Commit; "
+        "panic value a string, an error, a runtime error or a custom type) with panic recovery active (dontRecover=false, the production default) while Close waits or other "
+        "messages are due - the panic must stay inside the dispatch goroutine (the harness recovers at the top of every goroutine it starts for the code: anything arriving there "
+        "would have killed the process), the message must end up quarantined, everything else goes on -, dispatched entries whose spool entry cannot be opened at that moment "
         "(meta-data missing / undecodable, header undecodable; restored afterwards), semaphore capacity 1-3, zero or one shutdown at a random position, a lazily scheduled "
         "tick goroutine in a third of the scenarios, 12% deliberately disabled choices). What a parked goroutine can do is decided from the kind and operand of the "
         "statement it is parked at (resolved by reflection against the real wheel/queue: any slot collection, helper methods with their own locks, buffered channels), "
